@@ -28,7 +28,7 @@
 #include <sys/socket.h>
 #include <sys/uio.h>
 
-enum { KBuf = 1, KHmeta, KReply, KRawdata, KGeninfo, KMetabuf, KCxxref, KBare, KStream, KOutLocal, KOutRemote, KIterFile };
+enum { KBuf = 1, KHmeta, KReply, KRawdata, KGeninfo, KMetabuf, KCxxref, KBare, KStream, KOutLocal, KOutRemote, KIterFile, KMetaNew };
 
 #define MAXH 6
 #define MAXO 8
@@ -48,6 +48,7 @@ extern uintptr_t cxx_thing_peek(void *);
 extern void  cxx_thing_poke(void *, uintptr_t);
 extern uintptr_t cxx_bare_raise(void *);
 extern uintptr_t cxx_bare_lower(void *);
+extern void **cxx_thing_inner(void *);
 
 static int kind, nh, nobj;
 static long long maxv;
@@ -58,11 +59,14 @@ static struct {
 	long  serial;
 	void *defer[MAXD];
 	int   ndefer;
+	long  raws;      /* plain-pointer references the harness holds itself (detach, addref, counter written) */
 } objs[MAXO];
 static int made;
 static MPT_STRUCT(refcount) bare;
 static MPT_STRUCT(array) inner;      /* content shared by the metabuf objects */
 static long sends;
+static size_t create_len;
+static int buf_typed;                /* buffers of this behaviour are arrays of arrays */
 static int peers[2 * MAXO + 2];      /* both ends of the stream socket pairs (closed again at reset) */
 static int npeers;
 
@@ -82,6 +86,7 @@ static long long sym_of(uintptr_t r)
 struct hmeta {
 	MPT_INTERFACE(metatype) _mt;
 	MPT_STRUCT(refcount) ref;
+	MPT_INTERFACE(metatype) *inner;   /* a reference the object holds itself, released with it */
 };
 static const MPT_INTERFACE_VPTR(metatype) hm_vptr;
 static int hm_conv(MPT_INTERFACE(convertable) *val, MPT_TYPE(type) type, void *ptr)
@@ -101,6 +106,7 @@ static void hm_unref(MPT_INTERFACE(metatype) *mt)
 {
 	struct hmeta *h = (struct hmeta *) mt;
 	if (mpt_refcount_lower(&h->ref)) return;
+	if (h->inner) h->inner->_vptr->unref(h->inner);
 	vf_free(h);
 }
 static uintptr_t hm_addref(MPT_INTERFACE(metatype) *mt)
@@ -113,6 +119,7 @@ static MPT_INTERFACE(metatype) *hm_new(void)
 	struct hmeta *h = (struct hmeta *) vf_malloc(sizeof(*h));
 	h->_mt._vptr = &hm_vptr;
 	h->ref._val = 1;
+	h->inner = 0;
 	return &h->_mt;
 }
 static MPT_INTERFACE(metatype) *hm_clone(const MPT_INTERFACE(metatype) *mt)
@@ -167,6 +174,7 @@ static int obj_register(void *p)
 	objs[made].ptr = p;
 	objs[made].serial = b ? b->serial : -1;
 	objs[made].ndefer = 0;
+	objs[made].raws = 0;
 	return ++made;
 }
 /* raw data with one stage holding a few values: nested buffers that must go with the object */
@@ -208,7 +216,31 @@ static void *stream_input(void)
 static void *obj_create(void)
 {
 	switch (kind) {
-	case KBuf:     return _mpt_buffer_alloc(16, 0);
+	case KBuf: {
+		/* array of arrays with one (empty) element: a buffer that can hold a buffer reference itself */
+		const MPT_STRUCT(type_traits) *t = mpt_array_traits();
+		MPT_STRUCT(buffer) *b = _mpt_buffer_alloc(sizeof(MPT_STRUCT(array)), 0);
+		if (!create_len) return b;          /* plain, empty buffer */
+		buf_typed = 1;
+		if (b) {
+			b->_content_traits = t;
+			if (mpt_buffer_set(b, t, 0, 0, sizeof(MPT_STRUCT(array))) < 0) { b->_vptr->unref(b); return 0; }
+		}
+		return b;
+	}
+	case KMetaNew: {
+		/* metatype for a text of create_len bytes */
+		char *txt = (char *) malloc(create_len + 1);
+		const char *ptr = txt;
+		MPT_STRUCT(value) v;
+		void *mt;
+		memset(txt, 'a', create_len);
+		txt[create_len] = 0;
+		MPT_value_set(&v, 's', &ptr);
+		mt = mpt_meta_new(&v);
+		free(txt);
+		return mt;
+	}
 	case KHmeta:   return hm_new();
 	case KReply:   return mpt_reply_deferrable(8, send_cb, &sends);
 	case KRawdata: return rawdata_filled();
@@ -225,7 +257,16 @@ static void *obj_create(void)
 static int is_meta(void)
 {
 	return kind == KHmeta || kind == KReply || kind == KRawdata || kind == KGeninfo || kind == KMetabuf || kind == KStream
-	    || kind == KOutLocal || kind == KOutRemote || kind == KIterFile;
+	    || kind == KOutLocal || kind == KOutRemote || kind == KIterFile || kind == KMetaNew;
+}
+/* storage of the reference an object holds itself (array element, metatype member, reference<T> member) */
+static void **nest_slot(void *p)
+{
+	if (!p) return 0;
+	if (kind == KBuf) return buf_typed ? (void **) (((MPT_STRUCT(buffer) *) p) + 1) : 0;
+	if (kind == KHmeta) return (void **) &((struct hmeta *) p)->inner;
+	if (kind == KCxxref) return cxx_thing_inner(p);
+	return 0;
 }
 
 /* descriptors opened by objects that outlive their behaviour (streams, file iterators) are
@@ -257,6 +298,7 @@ static void drv_reset(void)
 	made = 0;
 	kind = 0;
 	sends = 0;
+	buf_typed = 0;
 	send_accept = 1;
 	bare._val = 1;
 	vf_reset();
@@ -273,6 +315,11 @@ static void emit(struct cmd *c, const char *ret, long long val, const int *was)
 	j_ints("href", v, nh);
 	for (i = 0; i < nh; i++) v[i] = copybuf ? obj_of(((void **) (copybuf + 1))[i]) : 0;
 	j_ints("copy", v, nh);
+	for (i = 0; i < nobj; i++) {
+		void **ns = obj_alive(i + 1) ? nest_slot(objs[i].ptr) : 0;
+		v[i] = ns ? obj_of(*ns) : 0;
+	}
+	j_ints("inner", v, nobj);
 	for (i = 0; i < nobj; i++) v[i] = obj_alive(i + 1);
 	j_ints("alive", v, nobj);
 	/* objects whose block was released during this call, in order of release */
@@ -297,6 +344,13 @@ static void emit(struct cmd *c, const char *ret, long long val, const int *was)
 			MPT_STRUCT(buffer) *b = (MPT_STRUCT(buffer) *) objs[i].ptr;
 			v[i] = (b->_vptr->get_flags(b) & MPT_ENUM(BufferShared)) ? 1 : 0;
 		}
+		else if ((kind == KMetabuf || kind == KMetaNew) && obj_alive(i + 1)) {
+			/* a metatype that exposes a text buffer: is that buffer shared */
+			MPT_STRUCT(buffer) *b = 0;
+			if (MPT_metatype_convert((MPT_INTERFACE(metatype) *) objs[i].ptr, MPT_ENUM(TypeBufferPtr), &b) >= 0 && b) {
+				v[i] = (b->_vptr->get_flags(b) & MPT_ENUM(BufferShared)) ? 1 : 0;
+			}
+		}
 	}
 	j_ints("shared", v, nobj);
 	j_int("val", val);
@@ -320,9 +374,9 @@ static void emit(struct cmd *c, const char *ret, long long val, const int *was)
 
 static int kind_of(const char *s)
 {
-	static const char *names[] = { "", "buf", "hmeta", "reply", "rawdata", "geninfo", "metabuf", "cxxref", "bare", "stream", "outlocal", "outremote", "iterfile" };
+	static const char *names[] = { "", "buf", "hmeta", "reply", "rawdata", "geninfo", "metabuf", "cxxref", "bare", "stream", "outlocal", "outremote", "iterfile", "metanew" };
 	int i;
-	for (i = 1; i <= KIterFile; i++) if (s && !strcmp(s, names[i])) return i;
+	for (i = 1; i <= KMetaNew; i++) if (s && !strcmp(s, names[i])) return i;
 	return 0;
 }
 static const MPT_STRUCT(type_traits) *ref_traits(void)
@@ -352,6 +406,47 @@ static uintptr_t raw_addref(void *p)
 	return ((MPT_INTERFACE(metatype) *) p)->_vptr->addref((MPT_INTERFACE(metatype) *) p);
 }
 
+/* dst := *src through one of the assignment paths; negative = refused.  -1000 = unknown path */
+static int do_assign(const char *via, void **dst, void **src)
+{
+	if (!strcmp(via, "clone")) {
+		return mpt_array_clone((MPT_STRUCT(array) *) dst, (const MPT_STRUCT(array) *) src);
+	}
+	if (!strcmp(via, "conv")) {
+		MPT_TYPE(data_converter) conv = mpt_data_converter(MPT_ENUM(TypeMetaRef));
+		return conv ? conv(src, MPT_ENUM(TypeMetaRef), dst) : -1;
+	}
+	if (!strcmp(via, "value") || !strcmp(via, "valueptr")) {
+		/* generic value assignment: source typed as metatype reference or metatype pointer */
+		MPT_STRUCT(value) v;
+		MPT_value_set(&v, via[5] ? MPT_ENUM(TypeMetaPtr) : MPT_ENUM(TypeMetaRef), src);
+		return mpt_value_convert(&v, MPT_ENUM(TypeMetaRef), dst);
+	}
+	if (!strcmp(via, "traits")) {
+		void *tmp = 0;        /* raw storage: only taken over when the copy was made */
+		int rc = ref_traits()->init(&tmp, src);
+		*dst = tmp;
+		return rc;
+	}
+	if (!strcmp(via, "cxx")) return cxx_assign(kind, dst, src);
+	if (!strcmp(via, "cxxctor")) return cxx_ctor(kind, dst, src);
+	return -1000;
+}
+/* references of the harness itself that point to object o: handles, array copy, nested slots, detached handles */
+static long own_refs(int o)
+{
+	long n = 0;
+	int i;
+	const void *p = objs[o - 1].ptr;
+	for (i = 0; i < nh; i++) if (slot[i] == p) n++;
+	for (i = 0; copybuf && i < nh; i++) if (((void **) (copybuf + 1))[i] == p) n++;
+	for (i = 1; i <= made; i++) {
+		void **ns = obj_alive(i) ? nest_slot(objs[i - 1].ptr) : 0;
+		if (ns && *ns == p) n++;
+	}
+	return n + objs[o - 1].ndefer;
+}
+
 static void drv_step(struct cmd *c)
 {
 	const char *a = c->action;
@@ -374,8 +469,12 @@ static void drv_step(struct cmd *c)
 		if (kind && kind != KBare) {
 			/* warm-up: process-global tables (type registry, traits) are set up by the first
 			 * object; what stays allocated after it is gone is not counted as belonging to a later one */
-			void *p = obj_create();
-			if (p) raw_unref(p);
+			void *p;
+			create_len = 1000;            /* both metatype implementations behind mpt_meta_new */
+			if ((p = obj_create())) raw_unref(p);
+			create_len = 0;
+			if ((p = obj_create())) raw_unref(p);
+			buf_typed = 0;
 			while (npeers) close(peers[--npeers]);
 			vf_tag_all(1);
 			if (inner._buf) {
@@ -393,35 +492,48 @@ static void drv_step(struct cmd *c)
 	if (!strcmp(a, "create")) {
 		void *p;
 		if (!h || slot[h - 1]) goto bad;
+		create_len = (size_t) drv_uint(c, "len", 0);
 		p = obj_create();
 		if (p) { obj_register(p); slot[h - 1] = p; }
 		emit(c, p ? "ok" : "refused", -1, was);
 	}
 	else if (!strcmp(a, "copy")) {
-		int rc = 0;
+		int rc;
+		void **src;
 		if (!h || !g || !via) goto bad;
-		if (!strcmp(via, "clone")) {
-			rc = mpt_array_clone((MPT_STRUCT(array) *) &slot[h - 1], (const MPT_STRUCT(array) *) &slot[g - 1]);
+		src = &slot[g - 1];
+		if (drv_int(c, "sin", 0)) {
+			/* the source is the reference the object handle g refers to holds itself */
+			if (!(src = nest_slot(slot[g - 1]))) goto bad;
 		}
-		else if (!strcmp(via, "conv")) {
-			MPT_TYPE(data_converter) conv = mpt_data_converter(MPT_ENUM(TypeMetaRef));
-			rc = conv ? conv(&slot[g - 1], MPT_ENUM(TypeMetaRef), &slot[h - 1]) : -1;
-		}
-		else if (!strcmp(via, "value") || !strcmp(via, "valueptr")) {
-			/* generic value assignment: source typed as metatype reference or metatype pointer */
-			MPT_STRUCT(value) v;
-			MPT_value_set(&v, via[5] ? MPT_ENUM(TypeMetaPtr) : MPT_ENUM(TypeMetaRef), &slot[g - 1]);
-			rc = mpt_value_convert(&v, MPT_ENUM(TypeMetaRef), &slot[h - 1]);
-		}
-		else if (!strcmp(via, "traits")) {
-			void *tmp = 0;        /* raw storage: only taken over when the copy was made */
-			rc = ref_traits()->init(&tmp, &slot[g - 1]);
-			slot[h - 1] = tmp;
-		}
-		else if (!strcmp(via, "cxx")) rc = cxx_assign(kind, &slot[h - 1], &slot[g - 1]);
-		else if (!strcmp(via, "cxxctor")) rc = cxx_ctor(kind, &slot[h - 1], &slot[g - 1]);
-		else goto bad;
+		if ((rc = do_assign(via, &slot[h - 1], src)) == -1000) goto bad;
 		emit(c, rc < 0 ? "refused" : "ok", -1, was);
+	}
+	else if (!strcmp(a, "nest")) {
+		int rc;
+		void **dst;
+		if (!h || !g || !via || !(dst = nest_slot(slot[h - 1]))) goto bad;
+		if ((rc = do_assign(via, dst, &slot[g - 1])) == -1000) goto bad;
+		emit(c, rc < 0 ? "refused" : "ok", -1, was);
+	}
+	else if (!strcmp(a, "teardown")) {
+		/* give back everything the harness holds */
+		int k, n;
+		if (copybuf) { MPT_STRUCT(buffer) *b = copybuf; copybuf = 0; b->_vptr->unref(b); }
+		for (k = 0; k < nh; k++) {
+			void *p = slot[k];
+			slot[k] = 0;
+			raw_unref(p);
+		}
+		for (k = 0; k < made; k++) {
+			for (n = objs[k].raws; n > 0; n--) raw_unref(objs[k].ptr);
+			objs[k].raws = 0;
+			while (objs[k].ndefer) {
+				MPT_INTERFACE(reply_context_detached) *def = (MPT_INTERFACE(reply_context_detached) *) objs[k].defer[--objs[k].ndefer];
+				def->_vptr->reply(def, 0);
+			}
+		}
+		emit(c, "ok", -1, was);
 	}
 	else if (!strcmp(a, "drop")) {
 		int rc = 0;
@@ -458,20 +570,29 @@ static void drv_step(struct cmd *c)
 	}
 	else if (!strcmp(a, "detach")) {
 		if (!h) goto bad;
-		cxx_detach(kind, &slot[h - 1]);
+		{
+			int od = obj_of(slot[h - 1]);
+			if (cxx_detach(kind, &slot[h - 1]) && od > 0) objs[od - 1].raws++;
+		}
 		emit(c, "ok", -1, was);
 	}
 	else if (!strcmp(a, "adopt")) {
 		if (!h || !o) goto bad;
 		cxx_adopt(kind, &slot[h - 1], objs[o - 1].ptr);
+		objs[o - 1].raws--;
 		emit(c, "ok", -1, was);
 	}
 	else if (!strcmp(a, "rawref")) {
 		if (!o) goto bad;
-		emit(c, raw_addref(objs[o - 1].ptr) ? "ok" : "refused", -1, was);
+		{
+			uintptr_t r = raw_addref(objs[o - 1].ptr);
+			if (r) objs[o - 1].raws++;
+			emit(c, r ? "ok" : "refused", -1, was);
+		}
 	}
 	else if (!strcmp(a, "rawunref")) {
 		if (!o) goto bad;
+		objs[o - 1].raws--;
 		raw_unref(objs[o - 1].ptr);
 		emit(c, "ok", -1, was);
 	}
@@ -481,8 +602,10 @@ static void drv_step(struct cmd *c)
 		void *def = 0;
 		if (!o || kind != KReply) goto bad;
 		if ((rd = reply_data_of((MPT_INTERFACE(metatype) *) objs[o - 1].ptr, &rc)) && rc) {
-			rd->len = 1; rd->val[0] = 1;            /* a pending request id */
+			/* armed: a request id is pending; otherwise there is none (never set, taken over, answered) */
+			rd->len = drv_int(c, "armed", 1) ? 1 : 0; rd->val[0] = 1;
 			def = rc->_vptr->defer(rc);
+			rd->len = 0;
 		}
 		if (def && objs[o - 1].ndefer < MAXD) objs[o - 1].defer[objs[o - 1].ndefer++] = def;
 		emit(c, def ? "ok" : "refused", -1, was);
@@ -521,6 +644,7 @@ static void drv_step(struct cmd *c)
 		if (kind == KHmeta) ((struct hmeta *) objs[o - 1].ptr)->ref._val = r;
 		else if (kind == KCxxref) cxx_thing_poke(objs[o - 1].ptr, r);
 		else goto bad;
+		objs[o - 1].raws = (long) drv_int(c, "v", 1) > maxv / 2 ? 0 : (long) drv_int(c, "v", 1) - own_refs(o);
 		emit(c, "ok", -1, was);
 	}
 	else if (!strcmp(a, "arrcopy")) {
@@ -544,9 +668,9 @@ static void drv_step(struct cmd *c)
 		MPT_STRUCT(buffer) *b, *nb;
 		if (!h || !via || kind != KBuf || !(b = (MPT_STRUCT(buffer) *) slot[h - 1])) goto bad;
 		if (!strcmp(via, "vptr")) {
-			if ((nb = b->_vptr->detach(b, 8))) slot[h - 1] = nb;
+			if ((nb = b->_vptr->detach(b, sizeof(MPT_STRUCT(array))))) slot[h - 1] = nb;
 		}
-		else if (!strcmp(via, "reserve")) nb = mpt_array_reserve((MPT_STRUCT(array) *) &slot[h - 1], 8, 0);
+		else if (!strcmp(via, "reserve")) nb = mpt_array_reserve((MPT_STRUCT(array) *) &slot[h - 1], sizeof(MPT_STRUCT(array)), buf_typed ? mpt_array_traits() : 0);
 		else goto bad;
 		if (nb && nb != b) obj_register(nb);
 		emit(c, nb ? "ok" : "refused", -1, was);
